@@ -179,7 +179,7 @@ inline int fourier_freq(int i) { return (i % 2 == 0) ? (i + 1) / 2 : -((i + 1) /
 inline LD domain_radius(const GridSpec &sp, int j, const std::vector<double> &pts, int N) {
     bool tr = !sp.ta.empty(); LD r = 0;
     bool unb = sp.family == F_GLOBAL && !sp.custom && rule_unbounded(sp.rule);
-    if (!unb) { if (sp.family == F_FOURIER) r = tr ? std::max(fabsl((LD)sp.ta[(size_t)j]), fabsl((LD)sp.tb[(size_t)j])) : 1; else r = tr ? std::max(fabsl((LD)sp.ta[(size_t)j]), fabsl((LD)sp.tb[(size_t)j])) : 1; }
+    if (!unb) r = tr ? std::max(fabsl((LD)sp.ta[(size_t)j]), fabsl((LD)sp.tb[(size_t)j])) : 1;
     else { LD a = tr ? sp.ta[(size_t)j] : 0, b = tr ? sp.tb[(size_t)j] : 1; r = fabsl(a) + (rule_laguerre(sp.rule) ? 1 / b : 1 / sqrtl(b)); }
     for (int i = 0; i < N; i++) r = std::max(r, fabsl((LD)pts[(size_t)i * (size_t)sp.dims + (size_t)j]));
     return r;
